@@ -13,9 +13,11 @@ Executable item records for the segment-tree model (core Lean only).
 * `KV` items: `Min` / `Max` / `MinAdd` / `MaxAdd` over an element type whose order ignores part of the value (a record ordered
   by key, floats with `+0.0` / `-0.0`), `catSumItem` (`Sum` over a non-commutative `+`), `FloatFmt` (IEEE bit patterns in pure
   integer arithmetic);
-* the two exotic lawful items of the correspondence harness (`harness/e_segtree/src/items.rs`):
+* the exotic lawful items of the correspondence harness (`harness/e_segtree/src/items.rs`):
   `affHash` (polynomial hash of the concatenation, affine modifiers — merge not commutative, modifiers do not
-  commute) and `strCat` (string concatenation with "shift every letter" / "overwrite every letter").
+  commute), `strCat` (string concatenation with "shift every letter" / "overwrite every letter"), the flip / count-ones
+  items, and `ap` (add an arithmetic progression to a range: `push` hands its two children different tags; `apPushCode`,
+  `apGuard`).
 
 The law proofs are in `Lemmas/SegtreeItems.lean`.
 -/
@@ -436,6 +438,77 @@ def catSumItem : Item (List Nat) Unit (List Nat) where
   pa _ a := a
   act _ a := a
 
+/-! ### `Ap` (harness item): range sum with "add an arithmetic progression to a range" — a lawful lazy item whose `push` does
+NOT treat its two children alike
+
+An element knows its position; a node stores the sum, the number of elements, the sum of their positions (`ps`) and the
+position of its first element (`lo`, `none` for the empty aggregate `Default`).  The pending tag `(ta, td)` is RELATIVE
+to the node's own first element: "the element at position `q` still has to receive `ta + td * (q - lo)`".  The modifier
+`(from, a, d)` adds `a + d * (q - from)` to the element at position `q`.
+
+`apItem.push` hands every child the tag re-based to the child's own first position (`ta + td * (child.lo - lo)`): this is
+the form in which all laws hold for arbitrary operands.  The harness's Rust item (`harness/e_segtree/src/items.rs`) is
+written as such an item normally is, `left.apply(ta, td); right.apply(ta + td * left.len, td)` — `apPushCode` below —,
+which is the same function exactly when the left child starts where the node starts and the right child starts
+`left.len` later (`ap_push_code_eq`); this holds at every node of a tree whose `i`-th element has position `i` (what the
+harness builds).  The driver runs the item together with the guard "the code's `push` and the model's `push` agree on
+this call" (`apGuard`), so a history on which they would differ is reported as outside the domain (`S any`), never
+compared. -/
+
+structure Ap where
+  sum : Int
+  len : Int
+  /-- sum of the positions of the elements -/
+  ps : Int
+  /-- position of the first element -/
+  lo : Option Int
+  ta : Int
+  td : Int
+  deriving Repr, DecidableEq
+
+/-- observable value `(sum, number of elements, sum of positions, first position)` -/
+abbrev ApV := Int × Int × Int × Option Int
+
+/-- every element (position `q`) of the aggregate receives `a + d * (q - base)` -/
+def apShift (base a d : Int) (v : ApV) : ApV :=
+  (v.1 + a * v.2.1 + d * (v.2.2.1 - base * v.2.1), v.2.1, v.2.2.1, v.2.2.2)
+
+def optOr (a b : Option Int) : Option Int :=
+  match a with
+  | some x => some x
+  | none => b
+
+/-- `Ap::apply(a, d)`: the progression has the value `a` at the node's own first element -/
+def Ap.apply (x : Ap) (a d : Int) : Ap :=
+  ⟨x.sum + a * x.len + d * (x.ps - x.lo.getD 0 * x.len), x.len, x.ps, x.lo, x.ta + a, x.td + d⟩
+
+def apItem : Item Ap (Int × Int × Int) ApV where
+  merge l r := ⟨l.sum + r.sum, l.len + r.len, l.ps + r.ps, optOr l.lo r.lo, 0, 0⟩
+  -- the trait's default `update`: `*self = merge(left, right)`
+  update _ l r := ⟨l.sum + r.sum, l.len + r.len, l.ps + r.ps, optOr l.lo r.lo, 0, 0⟩
+  modify x m := x.apply (m.2.1 + m.2.2 * (x.lo.getD 0 - m.1)) m.2.2
+  push p l r :=
+    (⟨p.sum, p.len, p.ps, p.lo, 0, 0⟩,
+     l.apply (p.ta + p.td * (l.lo.getD 0 - p.lo.getD 0)) p.td,
+     r.apply (p.ta + p.td * (r.lo.getD 0 - p.lo.getD 0)) p.td)
+  dflt := ⟨0, 0, 0, none, 0, 0⟩
+  op a b := (a.1 + b.1, a.2.1 + b.2.1, a.2.2.1 + b.2.2.1, optOr a.2.2.2 b.2.2.2)
+  val x := (x.sum, x.len, x.ps, x.lo)
+  pa x a := apShift (x.lo.getD 0) x.ta x.td a
+  act m a := apShift m.1 m.2.1 m.2.2 a
+
+/-- `push` as the harness's Rust item computes it: the left child starts where the node starts, the right child
+    `left.len` positions later -/
+def apPushCode (p l r : Ap) : Ap × Ap × Ap :=
+  (⟨p.sum, p.len, p.ps, p.lo, 0, 0⟩, l.apply p.ta p.td, r.apply (p.ta + p.td * l.len) p.td)
+
+/-- the element with value `v` at position `q` (`Ap::leaf`) -/
+def apLeaf (q v : Int) : Ap := ⟨v, 1, q, some q, 0, 0⟩
+
+/-- guard of the correspondence: the code's `push` is the model's `push` on this call -/
+def apGuard : Guard Ap (Int × Int × Int) :=
+  ⟨fun _ _ => true, fun _ _ => true, fun p l r => decide (apPushCode p l r = apItem.push p l r)⟩
+
 /-! ### IEEE binary formats: bit patterns, their order, exactly representable integers (pure integer arithmetic) -/
 
 structure FloatFmt where
@@ -499,6 +572,11 @@ def AffHash.dbg (x : AffHash) : String :=
 def StrCat.dbg (x : StrCat) : String := s!"StrCat \{ s: \"{letters x.s}\", md: {showOptPairN x.md} }"
 def Flip.dbg (name : String) (x : Flip) : String :=
   s!"{name} \{ ones: {x.ones}, len: {x.len}, fl: {x.fl} }"
+def showOptI : Option Int → String
+  | none => "None"
+  | some a => s!"Some({a})"
+def Ap.dbg (x : Ap) : String :=
+  s!"Ap \{ sum: {x.sum}, len: {x.len}, ps: {x.ps}, lo: {showOptI x.lo}, ta: {x.ta}, td: {x.td} }"
 def KV.dbgRec (x : KV) : String := s!"{x.k}/{x.t}"
 def combDbg {T U : Type} (f : T → String) (g : U → String) (x : T × U) : String :=
   s!"Combinator({f x.1}, {g x.2})"
